@@ -75,6 +75,12 @@ INT_RE = re.compile(r'^(u|i)(8|16|32|64|128|size)$')
 PTR_BITS = 64
 
 
+def len_cap():
+    """artificial bound on symbolic lengths / positions: far below usize::MAX so that sums of a few of them do not overflow, yet
+    above the widest head class that can occur (8-byte heads on 64-bit targets, 4-byte heads on 32-bit ones)"""
+    return 1 << (40 if PTR_BITS == 64 else 27)
+
+
 def int_info(tys):
     """(bits, signed) for an integer type name, else None."""
     m = INT_RE.match(tys)
@@ -479,7 +485,7 @@ class Machine:
         self.max_configs = max_configs
         self.max_steps = max_steps
         self.max_depth = max_depth
-        self.max_len = (1 << 63) - 1   # L2 machines bound lengths (length arithmetic is assumed not to overflow usize)
+        self.max_len = (1 << (PTR_BITS - 1)) - 1   # L2 machines bound lengths (length arithmetic is assumed not to overflow usize)
         self.cuts = set()              # loop-head blocks of the root body: a path ends when it reaches one of them a second time
         self.fid = 0
         self.visited_blocks = {}   # inst key -> set(bb)
@@ -851,7 +857,7 @@ class Machine:
         if int_info(c.get('ty', '')):
             nm = 'const:%s' % c.get('s')
             if nm not in cfg.st.ranges:
-                cfg.st.ranges[nm] = ty_range(c['ty']) if c['ty'] != 'usize' else ((0, 1 << 40),)
+                cfg.st.ranges[nm] = ty_range(c['ty']) if c['ty'] != 'usize' else ((0, len_cap()),)
                 cfg.st.symty[nm] = c['ty']
             return Int.sym(nm)
         return Atom('const:%s' % c.get('s'), ty_from_str(c.get('ty', '?')))
@@ -900,7 +906,7 @@ class Machine:
     def len_sym(self, st, name):
         nm = 'len(%s)' % name
         if nm not in st.ranges:
-            st.ranges[nm] = ((0, 1 << 40),)
+            st.ranges[nm] = ((0, len_cap()),)
             st.symty[nm] = 'usize'
         return Int.sym(nm)
 
@@ -1202,7 +1208,7 @@ class Machine:
                 if ft.get('k') == 'array' and isinstance(ft.get('len'), str) and ft['len'].isidentifier():
                     nm = 'const:%s' % ft['len']
                     if nm not in st.ranges:
-                        st.ranges[nm] = ((0, 1 << 40),)
+                        st.ranges[nm] = ((0, len_cap()),)
                         st.symty[nm] = 'usize'
                     return Slice(v, None, Int.sym(nm))
             if isinstance(v, Atom):
